@@ -17,6 +17,33 @@ namespace occa {
     *this = load(c);
   }
 
+  // Type of an integer literal as C++ gives it: the first of
+  //   int, (unsigned int), long, (unsigned long)
+  // that can hold the value (unsigned types are only candidates
+  // for a 'u' suffix or for non-decimal literals)
+  static primitive integerLiteral(const uint64_t value,
+                                  const bool isDecimal,
+                                  const bool unsigned_,
+                                  const int longs,
+                                  const bool negative) {
+    const bool fitsInt32  = (value <= (uint64_t) INT32_MAX);
+    const bool fitsUint32 = (value <= (uint64_t) UINT32_MAX);
+    const bool fitsInt64  = (value <= (uint64_t) INT64_MAX);
+
+    if (!unsigned_ && !longs && fitsInt32) {
+      const int32_t v = (int32_t) value;
+      return primitive((int32_t) (negative ? -v : v));
+    }
+    if (!longs && (unsigned_ || !isDecimal) && fitsUint32) {
+      const uint32_t v = (uint32_t) value;
+      return primitive((uint32_t) (negative ? (0 - v) : v));
+    }
+    if (!unsigned_ && (fitsInt64 || isDecimal)) {
+      return primitive((int64_t) (negative ? (0 - value) : value));
+    }
+    return primitive((uint64_t) (negative ? (0 - value) : value));
+  }
+
   primitive primitive::load(const char *&c,
                             const bool includeSign) {
     bool loadedFormattedValue = false;
@@ -60,6 +87,8 @@ namespace occa {
       lex::skipWhitespace(c);
     }
 
+    const char *cDigits = c;
+
     if (*c == '0') {
       ++digits;
       ++c;
@@ -68,9 +97,9 @@ namespace occa {
         loadedFormattedValue = true;
 
         if (C == 'B') {
-          p = primitive::loadBinary(++c, negative);
+          p = primitive::loadBinary(++c);
         } else if (C == 'X') {
-          p = primitive::loadHex(++c, negative);
+          p = primitive::loadHex(++c);
         }
 
         if (p.type & primitiveType::none) {
@@ -101,6 +130,8 @@ namespace occa {
       return p;
     }
 
+    const char *cDigitsEnd = c;
+
     while(*c != '\0') {
       const char C = uppercase(*c);
       if (C == 'L') {
@@ -129,19 +160,7 @@ namespace occa {
 
     if (loadedFormattedValue) {
       // Hex and binary only handle U, L, and LL
-      if (longs == 0) {
-        if (unsigned_) {
-          p = p.to<uint32_t>();
-        } else {
-          p = p.to<int32_t>();
-        }
-      } else if (longs >= 1) {
-        if (unsigned_) {
-          p = p.to<uint64_t>();
-        } else {
-          p = p.to<int64_t>();
-        }
-      }
+      p = integerLiteral(p.to<uint64_t>(), false, unsigned_, longs, negative);
     } else {
       // Handle the multiple other formats with normal digits
       if (decimal || float_) {
@@ -151,20 +170,14 @@ namespace occa {
           p = (double) occa::parseDouble(std::string(c0, c - c0));
         }
       } else {
-        uint64_t value_ = parseInt(std::string(c0, c - c0));
-        if (longs == 0) {
-          if (unsigned_) {
-            p = (uint32_t) value_;
-          } else {
-            p = (int32_t) value_;
-          }
-        } else if (longs >= 1) {
-          if (unsigned_) {
-            p = (uint64_t) value_;
-          } else {
-            p = (int64_t) value_;
-          }
+        // Decimal or octal digits
+        const bool isOctal = ((*cDigits == '0') && ((cDigitsEnd - cDigits) > 1));
+        const uint64_t base = (isOctal ? 8 : 10);
+        uint64_t value_ = 0;
+        for (const char *d = cDigits; d < cDigitsEnd; ++d) {
+          value_ = (base * value_) + (uint64_t) (*d - '0');
         }
+        p = integerLiteral(value_, !isOctal, unsigned_, longs, negative);
       }
     }
 
